@@ -84,3 +84,103 @@ package rtmp
 //@   ensures [C08.fresh] fresh(result)
 //@   ensures [C08.total] thorough len(result) == len(message) + m + 11 + extn + (numOfChunk-1)*(m+extn)
 //@ end
+
+// ---- AMF0 readers (C18 totality/bounds/termination, C04) -----------------------------------------------------------
+//@ pure be16(b []byte, i int) uint16 = uint16(b[i])<<8 | uint16(b[i+1])
+
+//@ func (amf0).ReadStringWithoutType
+//@   props C18 C04
+//@   ensures [C18.str.ok]    result2 == nil ==> 2 <= result1 && result1 <= len(b) && result1 == 2 + int(be16(b, 0)) && len(result0) == result1 - 2
+//@   ensures [C18.str.err]   result2 != nil ==> result1 == 0
+//@   ensures [C18.str.total] thorough len(b) >= 2 && int(be16(b, 0)) <= len(b) - 2 ==> result2 == nil
+//@   ensures [C18.str.bytes] result2 == nil ==> forall i in [0, len(result0)) :: result0[i] == b[2+i]
+//@ end
+
+//@ func (amf0).ReadLongStringWithoutType
+//@   props C18 C04
+//@   ensures [C18.lstr.ok]  result2 == nil ==> 4 <= result1 && result1 <= len(b) && len(result0) == result1 - 4
+//@   ensures [C18.lstr.err] result2 != nil ==> result1 == 0
+//@ end
+
+//@ func (amf0).ReadString
+//@   props C18 C04
+//@   ensures [C18.rstr.ok] err == nil ==> 3 <= l && l <= len(b) && (b[0] == 2 || b[0] == 12) && (b[0] == 2 ==> l == 3 + int(be16(b, 1)) && len(val) == l - 3)
+//@ end
+
+//@ func (amf0).ReadNumber
+//@   props C18 C04
+//@   ensures [C18.num.ok] result2 == nil ==> result1 == 9 && 9 <= len(b) && b[0] == 0
+//@   ensures [C18.num.total] len(b) >= 9 && b[0] == 0 ==> result2 == nil
+//@ end
+
+//@ func (amf0).ReadBoolean
+//@   props C18 C04
+//@   ensures [C18.bool.ok] result2 == nil ==> result1 == 2 && 2 <= len(b) && b[0] == 1 && result0 == (b[1] != 0)
+//@   ensures [C18.bool.total] len(b) >= 2 && b[0] == 1 ==> result2 == nil
+//@ end
+
+//@ func (amf0).ReadNull
+//@   props C18 C04
+//@   ensures [C18.null.ok] result1 == nil ==> result0 == 1 && 1 <= len(b) && b[0] == 5
+//@ end
+
+// The recursive readers. Nesting is limited by the depth argument (at most amf0MaxNestDepth = 64), which
+// gives the termination measure of the recursion and a constant bound on its depth (stackbound); the
+// loops terminate because every element consumes input.
+//@ func (amf0).read
+//@   props C18 C04
+//@   requires 0 <= index && index <= len(b) && 0 <= depth && depth <= 64
+//@   decreases 2*(65 - depth)
+//@   stackbound 200
+//@   ensures [C18.read.progress] result2 == nil ==> index < result1 && result1 <= len(b)
+//@ end
+
+//@ func (amf0).readObject
+//@   props C18 C04
+//@   requires 0 <= depth && depth <= 64
+//@   decreases 2*(65 - depth) + 1
+//@   stackbound 200
+//@   loop 1 invariant 1 <= index && index <= len(b)
+//@   loop 1 decreases len(b) - index
+//@   ensures [C18.obj.ok] result2 == nil ==> 4 <= result1 && result1 <= len(b)
+//@ end
+
+//@ func (amf0).readArray
+//@   props C18 C04
+//@   requires 0 <= depth && depth <= 64
+//@   decreases 2*(65 - depth) + 1
+//@   stackbound 200
+//@   loop 1 invariant 0 <= i && 5 <= index && index <= len(b) && count >= 0
+//@   loop 1 decreases count - i
+//@   ensures [C18.arr.ok] result2 == nil ==> 5 <= result1 && result1 <= len(b)
+//@ end
+
+//@ func (amf0).readStrictArray
+//@   props C18 C04
+//@   requires 0 <= depth && depth <= 64
+//@   decreases 2*(65 - depth) + 1
+//@   stackbound 200
+//@   loop 1 invariant 0 <= i && 5 <= index && index <= len(b) && count >= 0
+//@   loop 1 decreases count - i
+//@   ensures [C18.sarr.ok] result2 == nil ==> 5 <= result1 && result1 <= len(b)
+//@ end
+
+//@ func (amf0).ReadObject
+//@   props C18 C04
+//@   ensures [C18.obj.ok] result2 == nil ==> 4 <= result1 && result1 <= len(b)
+//@ end
+
+//@ func (amf0).ReadArray
+//@   props C18 C04
+//@   ensures [C18.arr.ok] result2 == nil ==> 5 <= result1 && result1 <= len(b)
+//@ end
+
+//@ func (amf0).ReadStrictArray
+//@   props C18 C04
+//@   ensures [C18.sarr.ok] result2 == nil ==> 5 <= result1 && result1 <= len(b)
+//@ end
+
+//@ func (amf0).ReadObjectOrArray
+//@   props C18 C04
+//@   ensures [C18.objarr.ok] result2 == nil ==> 4 <= result1 && result1 <= len(b)
+//@ end
